@@ -85,6 +85,11 @@ def structured(rng, f):
         f["impa/laze.yml"] = [{"imports": [{"path": "impb"}], "modules": [{"name": "impa_mod", "sources": ["a.c"]}]}]
         f["impb/" + rng.choice(["laze-lib.yml", "laze.yml", "laze-project.yml"])] = [dict({"imports": [{"path": "impa"}], "modules": [{"sources": ["b.c"]}]},
                                                                                       **({"subdirs": ["../impa"]} if rng.random() < 0.5 else {}))]
+        for docs in list(f.values()):
+            if any("../impa" in (doc.get("subdirs") or []) for doc in docs):
+                # the OS opens impb/../impa/laze.yml as impa/laze.yml: the tree the model is given has the file under
+                # both spellings (work-list keys are compared as written, by laze and by the model)
+                f["impb/../impa/laze.yml"] = f["impa/laze.yml"]
         d = "imports importing each other"
     elif k == 31:
         # a file included by absolute path from an imported lazefile declares a module without a name (fix 8d614e3)
